@@ -9,6 +9,7 @@ import (
 	"sort"
 	"strings"
 	"testing"
+	"time"
 
 	"github.com/hattya/go.sh/interp"
 	"github.com/hattya/go.sh/parser"
@@ -175,6 +176,24 @@ func init() {
 	reg("C06", "schedules", checkC06)
 	// a race report names the input that was running; it can only be
 	// reproduced in the -race binary (go test -race -tags verif -run TestC06Race)
+	reg("C06", "hang", func(c c06Case) error {
+		// a hang under free scheduling: try again many times
+		sched.SetPerturb(12345)
+		defer sched.SetPerturb(0)
+		for i := 0; i < 20000; i++ {
+			ok := true
+			if c.Kind == "eval" {
+				env := interp.NewExecEnv("sh")
+				ok = c06Within(20*time.Second, func() { env.Eval(c.Src) })
+			} else {
+				ok = c06Within(20*time.Second, func() { parser.ParseCommands(nil, "c06", c.Src) })
+			}
+			if !ok {
+				return fmt.Errorf("%s %q did not return within 20s (attempt %d under perturbed free scheduling)", c.Kind, c.Src, i+1)
+			}
+		}
+		return nil
+	})
 	reg("C06", "race", func(c c06Case) error {
 		return fmt.Errorf("data race reported by the race detector while this input ran (%s %q); reproduce with the -race binary", c.Kind, c.Src)
 	})
@@ -355,6 +374,18 @@ func TestC06(t *testing.T) {
 	_ = ref.Sentence
 }
 
+// c06Within runs fn and reports whether it returned in time.
+func c06Within(d time.Duration, fn func()) bool {
+	done := make(chan struct{})
+	go func() { defer close(done); fn() }()
+	select {
+	case <-done:
+		return true
+	case <-time.After(d):
+		return false
+	}
+}
+
 // ---- race detection (runs only in the -race binary) --------------------------
 
 func TestC06Race(t *testing.T) {
@@ -381,7 +412,10 @@ func TestC06Race(t *testing.T) {
 				src = strings.Replace(src, " ", " | | ", 1)
 			}
 			jr.begin("C06", "race", c)
-			parser.ParseCommands(nil, "c06", src)
+			if !c06Within(60*time.Second, func() { parser.ParseCommands(nil, "c06", src) }) {
+				c.Src = src
+				fail(rt, "C06", "hang", c, "ParseCommands(%q) did not return within 60s under perturbed free scheduling", src)
+			}
 			jr.end()
 			st.Eval(true, "race", src)
 		} else {
@@ -397,7 +431,9 @@ func TestC06Race(t *testing.T) {
 			env.Set("y", "3")
 			c := c06Case{Kind: "eval", Src: src}
 			jr.begin("C06", "race", c)
-			env.Eval(src)
+			if !c06Within(60*time.Second, func() { env.Eval(src) }) {
+				fail(rt, "C06", "hang", c, "Eval(%q) did not return within 60s under perturbed free scheduling", src)
+			}
 			jr.end()
 			st.Eval(true, "race-eval", src)
 		}
